@@ -368,6 +368,29 @@ fam(Family("data", {
 }, quick=4, thorough=5, extra=5, ctx_thorough=ALL_CTX))
 
 
+# ---- blockvalue: a block that binds a local and ends in a computed value, used as a NON-last operand (its result
+# register has to stay reserved while the following operands are evaluated), in every context - in particular in
+# parameterless functions and at top level, where the block's value lands in register 0
+def _blockvalue(tier):
+    blocks = ["(do (def p %s) (+ p 1))", "(let [p %s] (* p 2))", "(do (var q %s) (set q (+ q 1)) (+ q 10))",
+              "(if true (do (def p 1) (+ p %s)))", "(do (def p %s) (def q (+ p 1)) (tuple p q))", "(do (def p %s) (string p \"-\"))"]
+    vs = ["1", "a", "x", "(t 7)", "(t x)"]
+    shapes = ["(tuple %s %s)", "(+ %s %s)", "(tuple %s %s %s)", "[%s %s]", "(string %s %s)", "(tuple %s (do (def r2 %s) (+ r2 100)))"]
+    out = []
+    for bt in blocks:
+        for v in (vs if tier == "thorough" else vs[:4]):
+            b = bt % v
+            for w in (vs if tier == "thorough" else ["1", "(t 7)", "x"]):
+                for sh in shapes:
+                    n = sh.count("%s")
+                    out.append(sh % ((b, w) if n == 2 else (b, w, b)))
+    return out
+
+
+product_family("blockvalue", _blockvalue, ctx_quick=ALL_CTX, ctx_thorough=ALL_CTX,
+               doc="block with a local and a computed value as a non-last operand")
+
+
 # ---- mixed: the most important productions of every family together
 fam(Family("mixed", {
     "e": ["1", "a", "x", "(t $e)", "(set x $e)", "(+ $e $e $e)", "(if $e $e $e)", "(do $e $e)", "((fn [] $e))",
